@@ -1,5 +1,8 @@
+import TemplVerif.Generated.Skeletons
 import TemplVerif.Model.Frame
 import TemplVerif.Proofs.Frame
+import TemplVerif.Proofs.Mux
+import TemplVerif.Generated.Conn
 /-
 C18 — JSON-RPC framing is lossless and calls are matched to their responses.
 -/
@@ -54,5 +57,66 @@ example : (readAll ([67, 111, 110, 116, 101, 110, 116, 45, 76, 101, 110, 103, 11
     = some .nonPositiveLength := by decide
 example : (Rpc.run {} [.call 1, .call 2, .recv ⟨2, 7⟩, .cancel 1, .recv ⟨1, 8⟩, .finishCancel 1, .finishRecv 2]).map (·.completed)
     = some [(1, 1, .cancelled), (2, 2, .response ⟨2, 7⟩)] := by decide
+
+/-! ## Concurrent senders never interleave frames
+
+A frame is two writes to the transport (header, body). Every sender of a connection - `Call`, `Notify`, the replier
+- goes through `conn.write`, which holds the write mutex around them (T1 below). The model (`Model/Mux.lean`)
+interleaves any number of such senders at the granularity of single transport writes. -/
+
+/-- Under EVERY schedule, once all senders have finished the stream is their frames one after the other in some
+    order - a permutation: nothing missing, nothing twice, nothing cut. -/
+theorem C18_frames_atomic (ws : List Mux.Writer) (hf : Proofs.Mux.Fresh ws) (sched : List Nat)
+    (hd : Mux.allDone (Mux.run { writers := ws } sched) = true) :
+    ∃ order : List Nat, order.Perm (List.range ws.length) ∧
+      (Mux.run { writers := ws } sched).out = (order.filterMap fun i => ws[i]?.map Mux.frameOf).flatten :=
+  Proofs.Mux.mux_frames ws hf sched hd
+
+/-- … and a reader gets every message back whole (with `C18_roundtrip`: however the bytes are chunked). -/
+theorem C18_concurrent_roundtrip (bodies : List Bytes) (h : ∀ b ∈ bodies, 0 < b.length ∧ b.length < 2147483648) (sched : List Nat)
+    (hd : Mux.allDone (Mux.run { writers := bodies.map fun b => { header := (encode b).take ((encode b).length - b.length), body := b } } sched) = true) :
+    ∃ order : List Nat, order.Perm (List.range bodies.length) ∧
+      readAll (Mux.run { writers := bodies.map fun b => { header := (encode b).take ((encode b).length - b.length), body := b } } sched).out
+        = (order.filterMap fun i => bodies[i]?, none) :=
+  Proofs.Mux.mux_reads_back bodies h sched hd
+
+/-- What the mutex is for: a sender that writes to the stream directly cuts into another sender's frame. -/
+theorem C18_unlocked_counterexample :
+    (Mux.run { writers := [{ header := [1], body := [2] }, { header := [3], body := [4], locked := false }] } [0, 0, 1, 1, 0, 1]).out
+      = [1, 3, 2, 4] := by decide
+
+/-- T1: in conn.go only `write` writes to the stream, it does so between Lock and Unlock of the write mutex, and
+    Call, Notify and the replier send through it. -/
+theorem C18_write_pinned :
+    Generated.connDirectStreamWriters = [[119, 114, 105, 116, 101]] ∧
+    Generated.connWriteBracketsStreamWrite = true ∧
+    Generated.connSendersViaWrite = [[67, 97, 108, 108], [78, 111, 116, 105, 102, 121], [114, 101, 112, 108, 105, 101, 114]] := by decide
+
+/-- Non-vacuity: three senders, a schedule in which the second takes the mutex between the first one's writes being
+    requested - the first finishes its frame before the second starts. -/
+example : (Mux.run { writers := [{ header := [1], body := [2] }, { header := [3], body := [4] }, { header := [5], body := [6] }] }
+    [0, 1, 0, 1, 0, 1, 2, 1, 1, 2, 2, 2]).out = [1, 2, 3, 4, 5, 6] := by decide
+
+-- BEGIN transcription pins (written by tools/mkpins.py)
+/-- T1, transcription pins: the control structure and calls (extract/skeleton.go) of the functions whose models
+    were written by hand are the ones the models were transcribed from:
+      lsp/jsonrpc2/conn.go conn.Call
+      lsp/jsonrpc2/conn.go conn.Notify
+      lsp/jsonrpc2/conn.go conn.replier
+      lsp/jsonrpc2/conn.go conn.run
+      lsp/jsonrpc2/conn.go conn.write
+      lsp/jsonrpc2/stream.go stream.Read
+      lsp/jsonrpc2/stream.go stream.Write
+    A change of what one of them calls or how it branches breaks this theorem; the check then searches for a
+    failing input and reports either that or `no-failing-input-found`. -/
+theorem C18_transcription_pinned :
+    Generated.skel_conn_Call = 13815292633185930845 ∧
+    Generated.skel_conn_Notify = 5315113082747578148 ∧
+    Generated.skel_conn_replier = 9091940107552503306 ∧
+    Generated.skel_conn_run = 2093232708540561469 ∧
+    Generated.skel_conn_write = 12939569471761619924 ∧
+    Generated.skel_stream_Read = 3558343524170499463 ∧
+    Generated.skel_stream_Write = 10908548354901442409 := by decide
+-- END transcription pins
 
 end TemplVerif.Props.C18
